@@ -53,6 +53,9 @@ def generate(run_seed, tier):
         if rng.random() < 0.5:
             k = rng.choice([2, 3])
             parts = [rng.randint(1, 4) for _ in range(k)]
+            if rng.random() < 0.25:
+                # pieces whose weights need denominators above 10^6: any per-ballot rounding shows as split != merged
+                parts = rng.sample([1000003, 999983, 1000033, 999979], k)
             splits.append([i, parts])
     case["variant"] = {"names": tgt, "perm": perm, "cperm": cperm, "splits": splits}
     case["policies"] = [{"kind": "asc"}]
